@@ -19,6 +19,24 @@ pub const ACCOUNTS: [&str; 6] = [
     "Income:Job",
     "Liabilities:Card",
 ]; // byte-sorted: id = index
+/// accounts 6..11: names outside ASCII (two-, three-byte and double-width letters); every one
+/// sorts after the ASCII names and they are byte-sorted among themselves, so id = index + 6
+pub const ACCOUNTS_WIDE: [&str; 6] = [
+    "Revenus:Été",
+    "Tillgångar:Börs",
+    "Ärenden:Öl",
+    "Активы:Банк",
+    "資産:銀行",
+    "食費:スーパー",
+];
+
+pub fn account_name(id: usize) -> &'static str {
+    if id < ACCOUNTS.len() {
+        ACCOUNTS[id]
+    } else {
+        ACCOUNTS_WIDE.get(id - ACCOUNTS.len()).copied().unwrap_or("?")
+    }
+}
 
 #[derive(Clone, Debug, PartialEq, Serialize, Deserialize)]
 pub struct Lit {
@@ -158,7 +176,14 @@ pub fn ex_text(e: &Ex) -> String {
 }
 
 pub fn posting_text(p: &Posting) -> String {
-    let mut s = format!("    {}", ACCOUNTS[p.account]);
+    posting_text_spans(p).0
+}
+
+/// the posting line, the byte range of the account name in it and of `= X` (from the `=`)
+pub fn posting_text_spans(p: &Posting) -> (String, std::ops::Range<usize>, Option<std::ops::Range<usize>>) {
+    let name = account_name(p.account);
+    let mut s = format!("    {}", name);
+    let acct = 4..s.len();
     if let Some(a) = &p.amount {
         write!(s, "  {}", ve_text(a)).unwrap();
         match &p.lot {
@@ -172,10 +197,61 @@ pub fn posting_text(p: &Posting) -> String {
             None => {}
         }
     }
+    let mut bal = None;
     if let Some(b) = &p.balance {
-        write!(s, "  = {}", ve_text(b)).unwrap();
+        s.push_str("  ");
+        let st = s.len();
+        write!(s, "= {}", ve_text(b)).unwrap();
+        bal = Some(st..s.len());
     }
-    s
+    (s, acct, bal)
+}
+
+/// Text around the postings that the book-keeping never reads: payees, codes, comment lines
+/// under the header and under a posting, a trailing comment on a posting line, the text of
+/// comment entries.  Keys are entry indices / posting indices.  The default is the plain
+/// rendering (`txn<k>` payees, no comments).
+#[derive(Clone, Debug, Default, PartialEq, Serialize, Deserialize)]
+pub struct Deco {
+    #[serde(default)]
+    pub txns: BTreeMap<usize, TxnDeco>,
+    #[serde(default)]
+    pub comments: BTreeMap<usize, String>,
+}
+
+#[derive(Clone, Debug, Default, PartialEq, Serialize, Deserialize)]
+pub struct TxnDeco {
+    #[serde(default)]
+    pub code: Option<String>,
+    #[serde(default)]
+    pub payee: Option<String>,
+    #[serde(default)]
+    pub notes: Vec<String>,
+    #[serde(default)]
+    pub posts: BTreeMap<usize, PostDeco>,
+}
+
+#[derive(Clone, Debug, Default, PartialEq, Serialize, Deserialize)]
+pub struct PostDeco {
+    #[serde(default)]
+    pub tail: Option<String>,
+    #[serde(default)]
+    pub after: Vec<String>,
+}
+
+impl Deco {
+    pub fn is_plain(&self) -> bool {
+        self.txns.is_empty() && self.comments.is_empty()
+    }
+}
+
+/// where one posting stands in the rendered text (absolute byte offsets, 1-based line)
+#[derive(Clone, Debug, PartialEq)]
+pub struct PostingSpan {
+    pub line: usize,
+    pub line_off: usize,
+    pub account: std::ops::Range<usize>,
+    pub balance: Option<std::ops::Range<usize>>,
 }
 
 pub struct Rendered {
@@ -184,27 +260,65 @@ pub struct Rendered {
     pub entry_line: Vec<usize>,
     /// byte offset of the start of each posting line, per entry
     pub posting_off: Vec<Vec<usize>>,
+    /// line, account-name range and `= X` range of each posting, per entry
+    pub posting_span: Vec<Vec<PostingSpan>>,
 }
 
 pub fn render(entries: &[Entry]) -> Rendered {
+    render_deco(entries, &Deco::default())
+}
+
+pub fn render_deco(entries: &[Entry], deco: &Deco) -> Rendered {
     let mut text = String::new();
     let mut entry_line = Vec::new();
     let mut posting_off = Vec::new();
+    let mut posting_span = Vec::new();
     let mut line = 1usize;
     for (k, e) in entries.iter().enumerate() {
         entry_line.push(line);
         let mut offs = Vec::new();
+        let mut spans = Vec::new();
         match e {
             Entry::Txn(t) => {
-                match t.effective {
-                    Some(ed) => writeln!(text, "{}={} txn{}", date_text(t.date), date_text(ed), k).unwrap(),
-                    None => writeln!(text, "{} txn{}", date_text(t.date), k).unwrap(),
+                let none = TxnDeco::default();
+                let d = deco.txns.get(&k).unwrap_or(&none);
+                write!(text, "{}", date_text(t.date)).unwrap();
+                if let Some(ed) = t.effective {
+                    write!(text, "={}", date_text(ed)).unwrap();
+                }
+                if let Some(c) = &d.code {
+                    write!(text, " ({})", c).unwrap();
+                }
+                match &d.payee {
+                    Some(p) => writeln!(text, " {}", p).unwrap(),
+                    None => writeln!(text, " txn{}", k).unwrap(),
                 }
                 line += 1;
-                for p in &t.posts {
-                    offs.push(text.len());
-                    writeln!(text, "{}", posting_text(p)).unwrap();
+                for n in &d.notes {
+                    writeln!(text, "    ; {}", n).unwrap();
                     line += 1;
+                }
+                for (i, p) in t.posts.iter().enumerate() {
+                    let off = text.len();
+                    offs.push(off);
+                    let (pt, acct, bal) = posting_text_spans(p);
+                    spans.push(PostingSpan {
+                        line,
+                        line_off: off,
+                        account: off + acct.start..off + acct.end,
+                        balance: bal.map(|b| off + b.start..off + b.end),
+                    });
+                    text.push_str(&pt);
+                    let pd = d.posts.get(&i);
+                    if let Some(tail) = pd.and_then(|x| x.tail.as_ref()) {
+                        write!(text, "  ; {}", tail).unwrap();
+                    }
+                    text.push('\n');
+                    line += 1;
+                    for n in pd.map(|x| x.after.as_slice()).unwrap_or(&[]) {
+                        writeln!(text, "        ; {}", n).unwrap();
+                        line += 1;
+                    }
                 }
             }
             Entry::Format(c, dp) => {
@@ -213,15 +327,19 @@ pub fn render(entries: &[Entry]) -> Rendered {
                 line += 2;
             }
             Entry::Comment => {
-                writeln!(text, "; comment {}", k).unwrap();
+                match deco.comments.get(&k) {
+                    Some(c) => writeln!(text, "; {}", c).unwrap(),
+                    None => writeln!(text, "; comment {}", k).unwrap(),
+                }
                 line += 1;
             }
         }
         posting_off.push(offs);
+        posting_span.push(spans);
         text.push('\n');
         line += 1;
     }
-    Rendered { text, entry_line, posting_off }
+    Rendered { text, entry_line, posting_off, posting_span }
 }
 
 // ---------- Coq ----------
@@ -435,7 +553,7 @@ pub struct Names {
 impl Names {
     pub fn default_names() -> Self {
         Names {
-            accounts: ACCOUNTS.iter().map(|s| s.to_string()).collect(),
+            accounts: ACCOUNTS.iter().chain(ACCOUNTS_WIDE.iter()).map(|s| s.to_string()).collect(),
             commodities: COMMODITIES.iter().map(|s| s.to_string()).collect(),
         }
     }
@@ -658,7 +776,7 @@ pub fn obs_term(o: &Obs) -> String {
 pub fn obs_json(o: &Obs) -> serde_json::Value {
     match o {
         Obs::Ok { txns, balance } => json!({"ok": {"transactions": txns.len(),
-            "balance": balance.iter().map(|(a, am)| format!("{}: {}", ACCOUNTS.get(*a).unwrap_or(&"?"),
+            "balance": balance.iter().map(|(a, am)| format!("{}: {}", account_name(*a),
                 am.iter().map(|(c, v)| format!("{} {}", v, COMMODITIES.get(*c).unwrap_or(&"?"))).collect::<Vec<_>>().join(" + "))).collect::<Vec<_>>()}}),
         Obs::Err { entry, text, .. } => json!({"err": text, "entry": entry}),
         Obs::Panic(m) => json!({ "panic": m }),
@@ -680,6 +798,9 @@ pub struct Bias {
     pub format_pct: u64,
     pub max_txns: u64,
     pub zero_pct: u64,
+    /// share of costs / lot prices written with a minus sign (`@@ -1,000 USD`, `{{-5 EUR}}`,
+    /// `@ -2 USD`); 0 draws nothing from the stream
+    pub neg_exch_pct: u64,
 }
 
 impl Bias {
@@ -696,6 +817,7 @@ impl Bias {
             format_pct: 40,
             max_txns: 5,
             zero_pct: 8,
+            neg_exch_pct: 0,
         }
     }
 }
@@ -811,6 +933,10 @@ pub fn gen_txn(r: &mut Rng, date: i32, b: &Bias, bal: &mut Bal, formats: &BTreeM
             let oc = if r.chance(1, 12) { comm } else { *r.pick(&other) };
             let mut l = gen_lit(r, Some(oc), b);
             l.m = l.m.abs().max(if r.chance(1, 15) { 0 } else { 1 });
+            if b.neg_exch_pct > 0 && r.chance(b.neg_exch_pct, 100) {
+                // a written sign: a total only follows the sign of the amount, a rate multiplies
+                l.m = -l.m;
+            }
             if r.chance(1, 2) || signed_zero_risk {
                 p.cost = Some(Exch::Rate(VE::Amt(l.clone())));
                 bv = (oc, l.dec() * val);
@@ -823,6 +949,9 @@ pub fn gen_txn(r: &mut Rng, date: i32, b: &Bias, bal: &mut Bal, formats: &BTreeM
             let oc = *r.pick(&other);
             let mut l = gen_lit(r, Some(oc), b);
             l.m = l.m.abs().max(1);
+            if b.neg_exch_pct > 0 && r.chance(b.neg_exch_pct, 100) {
+                l.m = -l.m;
+            }
             if r.chance(2, 3) || signed_zero_risk {
                 p.lot = Some(Exch::Rate(VE::Amt(l.clone())));
                 bv = (oc, l.dec() * val);
@@ -993,10 +1122,13 @@ pub struct Shape {
     pub lot: usize,
     pub exprs: usize,
     pub formats: usize,
+    /// costs / lot prices written with a minus sign: (totals, rates)
+    pub neg_total: usize,
+    pub neg_rate: usize,
 }
 
 pub fn shape(entries: &[Entry]) -> Shape {
-    let mut s = Shape { txns: 0, postings: 0, omitted: 0, assigned: 0, asserted: 0, cost: 0, lot: 0, exprs: 0, formats: 0 };
+    let mut s = Shape { txns: 0, postings: 0, omitted: 0, assigned: 0, asserted: 0, cost: 0, lot: 0, exprs: 0, formats: 0, neg_total: 0, neg_rate: 0 };
     for e in entries {
         match e {
             Entry::Txn(t) => {
@@ -1020,6 +1152,13 @@ pub fn shape(entries: &[Entry]) -> Shape {
                     }
                     if p.lot.is_some() {
                         s.lot += 1;
+                    }
+                    for x in [&p.cost, &p.lot].into_iter().flatten() {
+                        match x {
+                            Exch::Total(VE::Amt(l)) if l.m < 0 => s.neg_total += 1,
+                            Exch::Rate(VE::Amt(l)) if l.m < 0 => s.neg_rate += 1,
+                            _ => {}
+                        }
                     }
                 }
             }
@@ -1076,6 +1215,8 @@ pub fn emit_ledger_case(
     st.add("shape:asserted", s.asserted as u64);
     st.add("shape:cost", s.cost as u64);
     st.add("shape:lot", s.lot as u64);
+    st.add("shape:signed_total", s.neg_total as u64);
+    st.add("shape:signed_rate", s.neg_rate as u64);
     st.add("shape:paren_expr", s.exprs as u64);
     st.add("shape:format_decl", s.formats as u64);
     let rep = case_json(prop, entries, &r.text, &o);
